@@ -16,7 +16,7 @@ _TRUSTED = [
 
 _PART = {
     "component": "journal", "driver": "hqm-journal",
-    "quick": {"cases": 8, "shards": 16, "extra": []},
+    "quick": {"cases": 16, "shards": 16, "extra": []},
     "thorough": {"cases": 40, "shards": 16, "extra": []},
 }
 
@@ -40,32 +40,41 @@ PROPS = {
     "C10": {
         "module": "HqModel.Props.C10",
         "theorems": [
-            "HqModel.C10.c10_restore_refines_partial", "HqModel.C10.c10_prefix", "HqModel.C10.c10_torn_tail",
-            "HqModel.C10.c10_truncate_append", "HqModel.C10.c10_every_crash_point", "HqModel.C10.c10_torn_tail_load",
-            "HqModel.C10.c10_f9_witness", "HqModel.C10.c10_f10_witness", "HqModel.C10.c10_full_statement_false",
+            "HqModel.C10.c10_restore_refines", "HqModel.C10.c10_prefix", "HqModel.C10.c10_every_crash_point",
+            "HqModel.C10.c10_torn_tail", "HqModel.C10.c10_torn_tail_load", "HqModel.C10.c10_truncate_append",
+            "HqModel.C10.c10_f9_regression", "HqModel.C10.c10_f10_regression", "HqModel.C10.c10_f11_f17_regression",
         ],
         "parts": [dict(_PART, tags=["res", "trunc", "job", "cnt", "task", "sub", "adj", "core", "queue", "prod"],
-                       clauses=["c10.", "gen."])],
+                       clauses=["c10.", "gen.", "c03.restart", "c06.restart", "c07.restart"])],
         "assumptions": [
-            "c10_restore_refines is proved as `_partial`: under `NoFailBeforeStart` (excludes defect F9) and with the job "
-            "counters only for jobs with at most one submit (excludes defect F10); the full statement is refuted on concrete "
-            "witness journals (c10_f9_witness, c10_f10_witness) that are replayed on the real code (corpus/journal/)",
-            "`Producible` = the explicit well-formedness predicate of lean/HqModel/Journal/Spec.lean (decidable); tied to the "
-            "generator by the `prod` out-line",
+            "c10_restore_refines is full strength for the code after the fixes 08d60f1 (F9), 05de231 (F10), 360a725 (F11), "
+            "40220c7 (F17); it includes the restart clauses of C03 (remaining deps), C06 (next instance id) and C07 (crash "
+            "counter) as `handle_new_tasks` applies the adjust map",
+            "`Producible` = the explicit decidable well-formedness predicate of lean/HqModel/Journal/Spec.lean (records refer to "
+            "existing tasks without outcome, Started before Finished, instance ids increase, Close before Completed, submits "
+            "pass validate_submit with distinct ids, worker ids are fresh and only connected workers are lost); tied to the "
+            "generator by the `prod` out-line of every restore op",
             "IntArray ranges have step >= 1 (Rust `step_by(0)` panics; part of `Producible`)",
+            "a journal cut inside its 10-byte header (crash between file creation and the header flush) is refused by "
+            "JournalReader::open: observation, outside the record-level statement",
         ],
         "trusted_base": _TRUSTED,
     },
     "C12": {
         "module": "HqModel.Props.C12",
-        "theorems": ["HqModel.C12.c12_wf", "HqModel.C12.c12_f12_witness"],
+        "theorems": ["HqModel.C12.c12_prune_equiv_partial", "HqModel.C12.c12_append", "HqModel.C12.c12_wf",
+                     "HqModel.C12.c12_f12_witness", "HqModel.C12.c12_f25_witness", "HqModel.C12.c12_full_statement_false"],
         "parts": [dict(_PART, tags=["pn", "prec", "res", "job", "cnt", "task", "sub", "adj", "core", "queue"],
                        clauses=["c12."])],
         "assumptions": [
             "live sets are the ones `handle_prune_journal` computes: jobs of the State that are not terminated, workers that "
             "are connected; prune is requested between two server actions",
-            "c12_prune_equiv is proved as `_partial` (all components except crash counts); the crash-count component is "
-            "refuted by c12_f12_witness (defect F12: `WorkerLost` records of no-longer-live workers are dropped)",
+            "c12_prune_equiv is proved as `_partial` at the level of the StateRestorer (`SameView`: all job entries up to crash "
+            "counters, queues, uid) for EVERY journal that restores; the two missing components are refuted by decide-witnesses "
+            "and registered as known findings: crash counters (F12: WorkerLost of no-longer-live workers dropped) and "
+            "queue_to_worker_resources (F25: WorkerConnected of no-longer-live allocation workers dropped)",
+            "the step from the restorer state to Job / TaskSubmit values is the function restoreJobs of the model (it reads the "
+            "crash counters only in the adjust map, queue_to_worker_resources only for Queue.worker_resources)",
         ],
         "trusted_base": _TRUSTED,
     },
